@@ -1,10 +1,56 @@
 // Native replay for C12 on the REAL concurrent_unordered_map.
 #include <oneapi/tbb/concurrent_unordered_map.h>
 #include <oneapi/tbb/concurrent_unordered_set.h>
+#include <oneapi/tbb/concurrent_set.h>
+#include <oneapi/tbb/concurrent_map.h>
 #include <cstdio>
 #include <string>
 struct IdHash { size_t operator()(size_t k) const { return k; } };
+// ranges: the boundary between the two halves of a split must be one fixed element, whatever is inserted afterwards
+static bool range_recipe() {
+    typedef tbb::concurrent_unordered_set<size_t, IdHash> set_t;
+    for (size_t base : {8u, 16u, 64u}) {
+        set_t s;
+        for (size_t k = 8; k < 16; ++k) s.insert(k + base - 8 + (base - 8) % 8);      // one key per bucket of the default 8 buckets
+        set_t::range_type left = s.range();
+        if (!left.is_divisible()) continue;
+        set_t::range_type right(left, tbb::split());
+        auto e0 = left.end(); auto b0 = right.begin();
+        if (e0 != b0) { std::printf("REPRODUCED class=range-halves-do-not-meet directly after the split left.end() != right.begin()\n"); return true; }
+        if (b0 == s.end()) continue;
+        size_t first = *b0, bucket = first % s.unsafe_bucket_count();
+        // every key of that bucket whose split-order key is smaller than first's lands between the bucket's dummy node and `first`
+        for (size_t k = bucket; k < first; k += s.unsafe_bucket_count()) {
+            s.insert(k);
+            if (left.end() != e0 || right.begin() != b0) {
+                std::printf("REPRODUCED class=range-boundary-moved after insert(%zu) behind the dummy node of bucket %zu, left.end() is %s and right.begin() is %s the element %zu they both were when the range was split: the halves no longer partition the parent range\n",
+                            k, bucket, left.end() == e0 ? "still" : "no longer", right.begin() == b0 ? "still" : "no longer", first);
+                return true;
+            }
+        }
+    }
+    return false;
+}
+// skip list: sequential recipe on the real concurrent_set / concurrent_multiset
+static bool skip_recipe() {
+    tbb::concurrent_set<unsigned short> s; tbb::concurrent_multiset<unsigned short> ms;
+    const unsigned N = 3000;
+    for (unsigned i = 0; i < N; ++i) { unsigned short k = (unsigned short)((i * 7919u) % 4001u);
+        bool fresh = s.find(k) == s.end(); auto r = s.insert(k);
+        if (r.second != fresh) { std::printf("REPRODUCED class=skiplist-duplicate insert(%u) reported %d although the key was %s\n", k, (int)r.second, fresh ? "absent" : "present"); return true; }
+        if (s.find(k) == s.end() || *s.find(k) != k) { std::printf("REPRODUCED class=skiplist-lost-key key %u is not found right after its insert returned\n", k); return true; }
+        ms.insert(k); ms.insert(k); }
+    size_t n = 0; bool first = true; unsigned short last = 0;
+    for (unsigned short k : s) { if (!first && !(last < k)) { std::printf("REPRODUCED class=skiplist-order iteration yields %u after %u\n", k, last); return true; } last = k; first = false; ++n; }
+    if (n != s.size()) { std::printf("REPRODUCED class=skiplist-size size() == %zu but iteration sees %zu elements\n", s.size(), n); return true; }
+    n = 0; first = true;
+    for (unsigned short k : ms) { if (!first && k < last) { std::printf("REPRODUCED class=skiplist-order multiset iteration yields %u after %u\n", k, last); return true; } last = k; first = false; ++n; }
+    if (n != 2 * N || ms.size() != 2 * N) { std::printf("REPRODUCED class=skiplist-size multiset holds %zu / iterates %zu elements after %u inserts\n", ms.size(), n, 2 * N); return true; }
+    return false;
+}
 int main(int argc, char** argv) {
+    if (argc > 1 && std::string(argv[1]).rfind("skip.", 0) == 0) { if (!skip_recipe()) std::printf("NOT-REPRODUCED\n"); return 0; }
+    if (argc > 1 && std::string(argv[1]).rfind("range.", 0) == 0 && range_recipe()) return 0;
     for (size_t n : {12u, 3u, 5u, 24u, 100u, 1000u}) {
         tbb::concurrent_unordered_map<size_t, int, IdHash> m;
         m.rehash(n);
